@@ -335,7 +335,20 @@ def check_c02(prop, tier):
     rep = new_report(prop, tier, STEP_TECH + "; the DIVXU quotient/remainder clause over the full operand domain is discharged by Verus on the extracted divxu_b/divxu_w and register-lane helpers (unit div)")
     step_check.run_step(rep, prop)
     bus_seam(rep, prop)
-    custom_check.run_verus_unit(rep, prop, "div", "Cpu::divxu_b, Cpu::divxu_w, Cpu::read_rn_b/w/l, Cpu::write_rn_w/l, Cpu::write_ccr, Cpu::get_nibble_opcode")
+    res = custom_check.run_verus_unit(rep, prop, "div", "Cpu::divxu_b, Cpu::divxu_w, Cpu::read_rn_b/w/l, Cpu::write_rn_w/l, Cpu::write_ccr, Cpu::get_nibble_opcode")
+    if res.get("status") != "ok":
+        # the unit is out of the verifier's reach after a source change: a bounded native comparison of the same
+        # contract on the real code keeps a violation visible (a clean result discharges nothing; the check stays inconclusive)
+        for f in ("DIVXU_B", "DIVXU_W_EXACT"):
+            try:
+                w = native.find_any(f, budget_ms=8000)
+            except Exception:
+                w = None
+            if w:
+                o = rep.add(Obl("C02/%s/%s" % (f.replace("_EXACT", ""), w.get("clause", "regs")), "native comparison with the contract (bounded) after the Verus unit lost its anchor", unit="native_search", fn="Cpu::divxu_b, Cpu::divxu_w"))
+                o.status = FAILED
+                o.witness = w
+                o.detail = "verus unit div: %s; the clause fails natively on the real code: %s" % (res.get("status"), w.get("detail", "")[:300])
     rep.notes.append("DIVXU: flags, untouched registers, PC and cost are proved by the Kani *_STRUCT harnesses (full domain, destination lanes left open); the value of the destination (quotient low, remainder high, only Rd written) is proved by the Verus unit `div` for all operands; CBMC's own full-domain divider equivalence (DIVXU_B, ~8 min) runs in the thorough tier")
     return rep.finish(native.find_witness)
 
